@@ -33,6 +33,8 @@ ENGINES = [
      "serves_properties": ["C01", "C03"], "kind_free_text": "exact power balance and Jacobian in TLA+ on a lattice; Newton loop model"},
     {"name": "inithandover", "path": "spec/InitHandover.tla spec/Scen_InitHandover.tla spec/Trace_Init.tla vh/initdrv.py", "serves_properties": ["C05"],
      "kind_free_text": "TLA+ model of the PF -> dynamics hand-over; scenarios and stock cases initialised and validated by TLC"},
+    {"name": "caseio", "path": "spec/CaseIO.tla spec/Trace_CaseIO.tla vh/iodrv.py", "serves_properties": ["C13"],
+     "kind_free_text": "TLA+ model of value normalisation across formats; round trips of real cases validated by TLC"},
     {"name": "connectivity", "path": "spec/Connectivity.tla spec/Trace_Connectivity.tla spec/Scen_Connectivity.tla vh/conndrv.py vh/netbuild.py",
      "serves_properties": ["C12"], "kind_free_text": "graph definitions in TLA+ evaluated by TLC on logged graphs of real Systems; ConnMan model-checked"},
     {"name": "lifecycle", "path": "spec/Lifecycle.tla spec/Trace_Lifecycle.tla spec/Scen_Lifecycle.tla vh/lifecycle.py vh/infeasible.py",
@@ -243,6 +245,19 @@ CHECKS["C05"] = dict(
          + "Only model combinations present in stock cases and the generated systems; whether stock data are 'consistent and inside "
            "limiter ranges' is unknown, so 'initialisation succeeds' is only demanded of the generated consistent scenarios. Known "
            "findings: three stock cases pass the test but move.")
+
+CHECKS["C13"] = dict(
+    engine="caseio", design_ref="DESIGN.md 4 (C13)",
+    technique="TLC model checking of CaseIO (normal form independent of numeric kind, dump/load identity) + round trips of stock and "
+              "generated cases through xlsx / json / chains / MATPOWER, validated by TLC",
+    text="CaseIO.tla requires the normalisation applied when a value is added to give the same result whether a format delivers the "
+         "number as int or float and dump->load to be the identity; stock cases and generated networks are written to xlsx and json "
+         "(also chained and after alter), read back and compared device by device and value by value (numbers, strings, lists, "
+         "missing), with equal power-flow and initialisation results; MATPOWER export->import must give the same power flow "
+         "(including a unity-ratio phase shifter).",
+    note=TRUSTED.replace("vh/tdsdrv.py: ranks of floats, booleans computed on floats", "vh/iodrv.py: table comparison at 1e-12 relative, power flow at 1e-8")
+         + "Not decided: agreement of the PSS/E raw/dyr and MATPOWER parsers with an independent reading of the source files (needs a "
+           "second parser). Cases pointing to side files (TimeSeries) are not moved.")
 
 NOT_APPLICABLE = [
     {"property_id": "C07", "reason": "numeric accuracy / convergence order against closed-form and matrix-exponential references: no "
